@@ -153,10 +153,11 @@ def run_history(res, ctx, root, rng, hidx, max_steps, con):
         dot = dot_always or (rng.random() < 0.03)
         if dot and "--style" not in opts:
             opts.append("--force-dot-license")
-        full = ["--no-multiprocessing", "--root", str(root), "annotate"] + args + opts + [str(f)]
+        cwd, gargs, fargs = annot.place(rng, root, [f])
+        full = gargs + ["annotate"] + args + opts + fargs
         before_bytes = (f.read_bytes(), open(str(f) + ".license", "rb").read() if os.path.exists(str(f) + ".license") else None)
         had_license_file = before_bytes[1] is not None
-        r = run_cli(full, cwd=str(root))
+        r = run_cli(full, cwd=cwd)
         res.n += 1
         sig.append("+".join(sorted(o for o in opts if o.startswith("--"))) + (":" + template if template else ""))
         if r.escaped:
